@@ -13,11 +13,15 @@ package utils
 
 // ---- C02 -------------------------------------------------------------------------------------
 // Which requests are "streaming uploads" whose signature check is deferred to the end of the body.
+// keyPart NAMES what follows the bucket in a request path ("/bucket/key…" -> "key…", "/bucket" and "/bucket/" -> "").
+// Only requests with a non-empty key part are routed to the handler that streams the body (s3api/router.go:
+// "/:bucket/:key/*"); every other PUT goes to a handler that does not read the body, so it must not be deferred.
+//@ ghost func keyPart(path string) string = strings.Cut(strings.TrimPrefix(path, "/"), "/").1
 //@ func IsBigDataAction
 //@   pure
 //@   let q = ctx.Request().URI().QueryArgs()
-//@   ensures {C02} [definition] ret0 <==> (ctx.Method() == "PUT" && len(strings.Split(ctx.Path(), "/")) >= 3 \
-//@        && !q.Has("tagging") && ctx.Get("X-Amz-Copy-Source") == "" && !q.Has("acl") && !q.Has("retention") && !q.Has("legal-hold"))
+//@   ensures {C02} [deferred-only-for-a-put-with-a-key] ret0 ==> ctx.Method() == "PUT" && keyPart(ctx.Path()) != ""
+//@   ensures {C02} [never-deferred-for-the-bodyless-sub-resources] ret0 ==> !q.Has("tagging") && ctx.Get("X-Amz-Copy-Source") == "" && !q.Has("acl") && !q.Has("retention") && !q.Has("legal-hold")
 //@ func IsSpecialPayload
 //@   pure
 //@ func IsStreamingPayload
@@ -27,6 +31,12 @@ package utils
 // request (a signed header that occurs twice must contribute both values).
 //@ func createHttpRequestFromCtx
 //@   at-return {C02} [every-header-line-is-visited] when err == nil :: ensures called("fasthttp.RequestHeader.VisitAll")
+//@ func includeHeader
+//@   pure
+// inside the visit: a line of a signed header is added to the earlier ones, never put in their place
+//@ func createHttpRequestFromCtx$1
+//@   at-call? http.Header.Set {C02} [a-repeated-header-line-does-not-replace-the-earlier-one] requires false
+//@   at-return {C02} [a-signed-header-line-is-added] when includeHeader(keyStr, signedHdrs) :: ensures called("http.Header.Add")
 //@ func createPresignedHttpRequestFromCtx
 //@   at-return {C02} [every-header-line-is-visited] when err == nil :: ensures called("fasthttp.RequestHeader.VisitAll")
 
@@ -88,6 +98,9 @@ package utils
 //@ func (*UnsignedChunkReader) readTrailer
 //@   ensures {C12} [a-cut-trailer-is-not-a-clean-end] ret0 != io.EOF
 //@   at-return {C12} [nil-only-after-the-checksum-matched] when ret0 == nil :: ensures called("utils.UnsignedChunkReader.validateChecksum") && result("utils.UnsignedChunkReader.validateChecksum", 0) == nil
+// C02: the deferred request signature is verified by the reader underneath when the raw stream reports its end, so the
+// decoder must have seen that end before it reports a complete stream
+//@   at-return {C02,C12} [nil-only-after-the-stream-reported-its-end] when ret0 == nil :: ensures called("bufio.Reader.ReadByte") && result("bufio.Reader.ReadByte", 1) == io.EOF
 //@ func (*UnsignedChunkReader) Read
 //@   at-call io.ReadFull {C12} [payload-is-read-through-the-hashing-tee] requires called("io.TeeReader") && $0 == result("io.TeeReader", 0) && arg("io.TeeReader", 0) == iface(ucr.reader) && arg("io.TeeReader", 1) == ucr.hasher
 //@   at-return {C12} [end-of-stream-only-after-the-trailer-was-validated] when ret1 == io.EOF :: ensures called("utils.UnsignedChunkReader.readTrailer") && result("utils.UnsignedChunkReader.readTrailer", 0) == nil
